@@ -163,10 +163,16 @@ Record cs_txn := {
 Record cs_cfg := {
   cfg_fee : bool;      (* ChainConfig.IsFeeEnabled *)
   cfg_events : bool;   (* GetEventDb() != nil: user / unique-address events are emitted *)
-  cfg_miner : Z }.     (* minersc.ADDRESS, the fee sink *)
+  cfg_miner : Z;       (* minersc.ADDRESS, the fee sink *)
+  cfg_strict_ids : bool }.
+  (* behaviour of the un-modelled encryption.IsHash on a 64-digit hex string that is not in
+     lower case, recorded from the real run: false = accepted (hex.DecodeString accepts both
+     cases; the code as it is), true = refused *)
 
-(* encryption.IsHash on a client id: the negative tokens stand for malformed ids *)
-Definition cs_is_hash (id : Z) : bool := 0 <=? id.
+(* encryption.IsHash on a client id: the negative tokens stand for malformed ids, tokens from
+   [cs_upper_base] on for upper-case spellings *)
+Definition cs_is_hash (cfg : cs_cfg) (id : Z) : bool :=
+  (0 <=? id) && (negb (cfg_strict_ids cfg) || (id <? 100)).
 
 (* what the called contract did: an arbitrary oracle result *)
 Inductive cs_sc_result :=
@@ -214,7 +220,7 @@ Definition cs_finish (cfg : cs_cfg) (sp : cs_stamp) (tx : cs_txn)
            (m : list (Z * cs_acct)) (nodes : list (Z * Z))
            (trs signed : list cs_transfer) (evs : list cs_event) (status : Z) (out : option Z)
   : cs_outcome :=
-  if cfg_fee cfg && negb (cs_is_hash (cfg_miner cfg)) then Rejected ErrBadTo
+  if cfg_fee cfg && negb (cs_is_hash cfg (cfg_miner cfg)) then Rejected ErrBadTo
   else
     let fee := if cfg_fee cfg
                then [{| tr_from := tx_from tx; tr_to := cfg_miner cfg; tr_amt := tx_fee tx |}]
@@ -268,7 +274,7 @@ Definition cs_update_ideal (cfg : cs_cfg) (st : cs_state) (round : Z) (tx : cs_t
             | None => Rejected ErrNoSender         (* GetClientBalance: value not present *)
             | Some a =>
                 if ac_bal a <? cs_wrap_u64 (tx_fee tx + tx_value tx) then Rejected ErrSendFunds
-                else if negb (cs_is_hash (tx_to tx)) then Rejected ErrBadTo
+                else if negb (cs_is_hash cfg (tx_to tx)) then Rejected ErrBadTo
                 else cs_finish cfg sp tx m (st_nodes st)
                        [{| tr_from := tx_from tx; tr_to := tx_to tx; tr_amt := tx_value tx |}]
                        [] [] 1 None
